@@ -98,7 +98,17 @@ func (w *world) install(h *history) {
 	}
 }
 
-// sameSet: same validators, powers and accums.
+// sameSet: the same validators (address, key, power, in the same order).  Accum is left out: it only drives the
+// proposer rotation, no commit verification looks at it.
 func sameSet(a, b *types.ValidatorSet) bool {
-	return bytes.Equal(a.Hash(), b.Hash()) && len(a.Validators) == len(b.Validators)
+	if len(a.Validators) != len(b.Validators) {
+		return false
+	}
+	for i, v := range a.Validators {
+		w := b.Validators[i]
+		if !bytes.Equal(v.Address, w.Address) || !v.PubKey.Equals(w.PubKey) || v.VotingPower != w.VotingPower {
+			return false
+		}
+	}
+	return true
 }
